@@ -210,9 +210,7 @@ def _beatvalues(symx, T, n, name):
     import z3
     evs, terms = [], []
     for i in range(n):
-        k = symx.fresh_int(f"{name}k{i}", -96000, 96000)
-        if i:
-            symx.CTL.assume(k > terms[i - 1][0])
+        k = symx.fresh_int(f"{name}k{i}", -96000, 96000)   # any order, repeated beats allowed: the list is data, not a timeline
         m = symx.fresh_int(f"{name}m{i}")
         evs.append(T.BeatValue(T.Beat(symx.SymInt(k), 48), symx.DecShim._make(z3.ToReal(m) / 10**6, (m, 10**6))))
         terms.append((k, m))
@@ -339,7 +337,7 @@ def obligations(tier):
             if tier == "quick" and n == 3 and sk:
                 continue
             obs.append(dict(name=f"beatvalues n={n} skeleton={sk}", func="ob_beatvalues", args=(n, sk), budget_s=120,
-                            bounds=f"{n} events, ticks in +-96000 strictly increasing, values m/10^6 with m unbounded"))
+                            bounds=f"{n} events, ticks in +-96000 in any order (repeats allowed), values m/10^6 with m unbounded"))
     for kind in ("sm", "ssc"):
         obs.append(dict(name=f"timingdata {kind}", func="ob_timingdata", args=(kind,), budget_s=120, bounds="2 BPMs, 1 stop, 1 delay, 1 warp; OFFSET present/empty/absent"))
     return obs
